@@ -1,5 +1,14 @@
 #!/bin/bash
-# usage: tools/try_seeds_batch.sh <Cnn> [<Cnn> ...]   evaluates /tmp/seed-<Cnn>a/_deliver/change{1..4} with 4 jobs in parallel
+# usage: tools/try_seeds_batch.sh <Cnn>[:<round letter>[:<n>]] ...   evaluates /tmp/seed-<Cnn><letter>/_deliver/change{1..n}, 4 jobs in parallel
+# seed ids: Cnn-s<i> for round a, Cnn-<letter><i> otherwise
 mkdir -p /tmp/seedlogs
-for p in "$@"; do for i in 1 2 3 4; do echo "$p $i"; done; done | xargs -P 4 -L 1 bash -c 'p=$0; i=$1; VERIF_NPROC=4 /verif/tools/try_seed.py /tmp/seed-${p}a/_deliver $i $p ${p}-s$i --tier quick > /tmp/seedlogs/${p}-s$i.log 2>&1'
-for p in "$@"; do for i in 1 2 3 4; do grep -h "^SEED" /tmp/seedlogs/${p}-s$i.log | cut -c1-400; done; done
+jobs=()
+for spec in "$@"; do
+  IFS=: read p r n <<< "$spec"; r=${r:-a}; n=${n:-4}
+  for i in $(seq 1 $n); do
+    if [ "$r" = a ]; then sid=${p}-s$i; else sid=${p}-${r}$i; fi
+    jobs+=("$p $r $i $sid")
+  done
+done
+printf '%s\n' "${jobs[@]}" | xargs -P 4 -L 1 bash -c 'p=$0; r=$1; i=$2; sid=$3; VERIF_NPROC=4 /verif/tools/try_seed.py /tmp/seed-${p}${r}/_deliver $i $p $sid --tier quick > /tmp/seedlogs/$sid.log 2>&1'
+for j in "${jobs[@]}"; do set -- $j; grep -h "^SEED" /tmp/seedlogs/$4.log | cut -c1-400; done
